@@ -156,12 +156,12 @@ def window_accounting(cx):
     cx.check(bool(cs) and all(c.fn is us for c in cs), "add:callers", "Inflights::add is called only from Progress::update_state (hence only for an unpaused Replicate progress)")
 
 
-def _after(cx, f, edge_pred, suffixes, key, text):
+def _after(cx, f, edge_pred, suffixes, key, text, fresh_only=False):
     g = cx.pg(f)
     blocks = set()
     for s in suffixes:
         blocks |= call_blocks(f, s)
-    ok, ne = g.after_edge_must_pass(lambda lits: any(edge_pred(l) for l in lits), lambda b: b in blocks)
+    ok, ne = g.after_edge_must_pass(lambda lits: any(edge_pred(l) for l in lits), lambda b: b in blocks, fresh_only=fresh_only)
     cx.check(ok and ne >= 1 and bool(blocks), key, text + (" [no such edge found]" if not ne else ""))
 
 
@@ -246,7 +246,7 @@ def resume_pairing(cx):
         _after(cx, f, in_snap, ["Progress::become_probe"], "snapstatus:probe", "snapshot status (either outcome): the progress leaves Snapshot")
         _after(cx, f, in_snap, ["Progress::pause"], "snapstatus:pause", "snapshot status: wait for the next heartbeat / ack before re-sending")
         rej = lambda l: l[0] == "is" and l[2] is True and is_f(l[1], "Message.reject")
-        _after(cx, f, rej, ["Progress::snapshot_failure"], "snapstatus:failure", "snapshot failure clears the pending snapshot index")
+        _after(cx, f, rej, ["Progress::snapshot_failure"], "snapstatus:failure", "snapshot failure clears the pending snapshot index", fresh_only=True)
         ws = [s for s in cx.prog.writes.get("Progress.pending_request_snapshot", []) if s.fn is f and "stmt" in s.data and write_value(cx, s) == ("int", 0)]
         cx.check(bool(ws), "snapstatus:clear-request", "snapshot status clears the follower's snapshot request")
         gss = cx.pg(f)
@@ -482,13 +482,13 @@ def timers(cx):
     cx.check(ok and ne >= 1 and bool(hup) and timeout, "election:campaign", "tick_election: once the (randomized) timeout has passed on a promotable node, a self-addressed MsgHup is stepped")
     pet = cx.fn("Raft::pass_election_timeout")
     rets = cx.pg(pet).returns()
-    ok = len(rets) == 1 and rets[0][1] == ("bin", "Le", rets[0][1][2], rets[0][1][3]) and is_f(rets[0][1][2], "RaftCore.randomized_election_timeout") and is_f(rets[0][1][3], "RaftCore.election_elapsed")
+    ok = len(rets) == 1 and rets[0][1][0] == "bin" and rets[0][1] == ("bin", "Le", rets[0][1][2], rets[0][1][3]) and is_f(rets[0][1][2], "RaftCore.randomized_election_timeout") and is_f(rets[0][1][3], "RaftCore.election_elapsed")
     cx.check(ok, "election:threshold", "pass_election_timeout() = election_elapsed >= randomized_election_timeout")
     g = cx.pg(th)
     et = lambda l: l[0] == "is" and l[2] is False and l[1][0] == "bin" and l[1][1] == "Lt" and is_f(l[1][2], "RaftCore.election_elapsed") and is_f(l[1][3], "RaftCore.election_timeout")
     cq = lambda l: l[0] == "is" and l[2] is True and is_f(l[1], "RaftCore.check_quorum")
     cqb = self_blocks(th, "MsgCheckQuorum")
-    ok, ne = g.after_edge_must_pass(lambda lits: any(cq(l) for l in lits), lambda b: b in cqb)
+    ok, ne = g.after_edge_must_pass(lambda lits: any(cq(l) for l in lits), lambda b: b in cqb, fresh_only=True)
     okg = all(any(et(l) for l in cx.guard_lits(t.site)) for t in selfs if t.fn is th and t.types() == {"MsgCheckQuorum"})
     cx.check(ok and ne >= 1 and bool(cqb) and okg, "leader:check-quorum", "tick_heartbeat: every election_timeout ticks, with check_quorum on, a self-addressed MsgCheckQuorum is stepped")
     rz = {s.block for s in cx.prog.writes.get("RaftCore.election_elapsed", []) if s.fn is th and "stmt" in s.data and write_value(cx, s) == ("int", 0)}
@@ -499,7 +499,8 @@ def timers(cx):
     ok, ne = g.after_edge_must_pass(lambda lits: any(ht(l) for l in lits), lambda b: b in bb)
     cx.check(ok and ne >= 1 and bool(bb), "leader:beat", "tick_heartbeat: every heartbeat_timeout ticks a self-addressed MsgBeat is stepped")
     # MsgBeat arm broadcasts heartbeats
-    okb = any(_in_msg_arm(cx, c, {"MsgBeat"}, depth=0) for c in cx.prog.call_sites_of("Raft::bcast_heartbeat"))
+    okb = any(_in_msg_arm(cx, c, {"MsgBeat"}, depth=0) for c in cx.prog.call_sites_of("Raft::bcast_heartbeat")) or \
+        any(_in_msg_arm(cx, c, {"MsgBeat"}, depth=0) for c in cx.prog.call_sites_of("Raft::bcast_heartbeat_with_ctx"))
     cx.check(okb, "beat:broadcast", "the MsgBeat arm broadcasts heartbeats")
     # tick dispatch
     tk = cx.fn("Raft::tick")
